@@ -35,11 +35,33 @@ def fields_as_printed(code, f):
     return list(f)
 
 
+def admission_ops(rng):
+    """estimate + strategy as try_load_data_into uses them, and the crypto estimate"""
+    sid = pc.rand_varint(rng)
+    off = rng.choice([0, 0, 1, 63, 64, 16383, 16384, pc.rand_varint(rng)])
+    cap = rng.choice([1, 2, 3, 9, 10, 17, 25, 26, 27, 50, 51, 64, 80, 100, 1200, 1452, 16400, 16420, rng.randint(1, 1500)])
+    least = 1 + pc.varint_size(sid) + (0 if off == 0 else pc.varint_size(off))
+    out = [((8, [cap, sid, off]), ("AE", cap, least))]
+    if cap > least:
+        room = cap - least
+        ln = rng.choice([0, 1, room, max(0, room - 1), max(0, room - 2), max(0, room - 3), max(0, room - 26), max(0, room - 27), rng.randint(0, room)])
+        out.append(((7, [cap, sid, off, ln]), ("AS", cap, least, ln)))
+    ccap = rng.choice([0, 1, 3, 4, 5, 66, 67, 68, 69, 70, 16387, 16388, 16389, 16390, 16391, 16392, rng.randint(0, 20000)])
+    coff = rng.choice([0, 63, 64, 16383, 16384, pc.rand_varint(rng)])
+    out.append(((9, [ccap, coff]), ("AC", ccap, coff)))
+    return out
+
+
 def gen_case(rng, name, n=14, small=False):
     ops = []
     meta = []
     for _ in range(n):
         r = rng.random()
+        if r > 0.9:
+            for op, m in admission_ops(rng):
+                ops.append(op)
+                meta.append(m)
+            continue
         if r < 0.12:
             x = pc.rand_varint(rng)
             ops.append((4, [x]))
@@ -107,6 +129,33 @@ def oracle(case, obs):
                 return "dec-consumed: op %d frame 0x%x consumed %d of %d written bytes" % (k, code, v[1], n)
             if v[2] != code or v[3:] != list(f):
                 return "dec-value: op %d frame 0x%x decoded to a different value: %s" % (k, code, v[2:12])
+        elif m[0] == "AE":
+            cap, least = m[1], m[2]
+            if v != ([1, cap - least] if cap > least else [0]):
+                return "estimate: op %d stream estimate_max_capacity(%d) with header %d gives %s" % (k, cap, least, v)
+        elif m[0] == "AS":
+            cap, least, ln = m[1], m[2], m[3]
+            if v[0] != 0:
+                return "strategy: op %d encoding_strategy failed: %s" % (k, v)
+            written = v[2] + least + (pc.varint_size(ln) if v[1] else 0) + ln
+            if written > cap:
+                return "admission: op %d stream frame of %d data bytes admitted into %d bytes writes %d (padding %d)" % (k, ln, cap, written, v[2])
+            if not v[1] and written != cap:
+                return "fill: op %d frame without length does not fill the packet (%d of %d)" % (k, written, cap)
+            if not v[1] and cap - (least + ln) >= pc.varint_size(ln):
+                return "lenbit: op %d length omitted although it fits" % k
+        elif m[0] == "AC":
+            ccap, coff = m[1], m[2]
+            need = 1 + pc.varint_size(coff)
+            best = None
+            # largest n with need + varint_size(n) + n <= ccap
+            lo, hi = 0, ccap
+            for n in range(max(0, ccap - need - 8), ccap + 1):
+                if n > 0 and need + pc.varint_size(n) + n <= ccap:
+                    best = n
+            want = [0] if ccap < need + 2 else [1, best]
+            if v != want:
+                return "cryptoest: op %d crypto estimate_max_capacity(%d, off %d) gives %s, largest fitting length is %s" % (k, ccap, coff, v, want)
         elif m[0] == "R":
             code, f, wire = m[1], m[2], m[3]
             if v[0] != 0:
